@@ -240,10 +240,15 @@ class Parser:
     def _parse(self) -> AST:
         root = AST(source=self.source)
 
+        self._parse_comments(root)
         token = self._assert_and_cunsume(TokenType.BRACKET_LEFT)
         root.tokens.append(token)
 
         while (token := self.next_token) is not None:
+            if token.type == TokenType.COMMENT:
+                self._parse_comment(root)
+                continue
+
             if token.type == TokenType.BRACKET_RIGHT:
                 break
 
@@ -276,6 +281,7 @@ class Parser:
         t2 = self._assert_and_cunsume(TokenType.BRACKET_RIGHT)
         node.tokens.append(t2)
 
+        self._parse_comments(node)
         t3 = self._assert_and_cunsume(TokenType.BRACKET_LEFT)
         node.tokens.append(t3)
 
@@ -393,6 +399,10 @@ class Parser:
         node = ASTNode(ASTType.COMMENT, ASCComment(t1.value), tokens=[t1])
         root.add_child(node)  # ? where the comment should be added
         return node
+
+    def _parse_comments(self, root: ASTNode) -> None:
+        while self.next_token is not None and self.next_token.type == TokenType.COMMENT:
+            self._parse_comment(root)
 
     def _read_token(self) -> None:
         self.next_token = next(self.lexer, None)
